@@ -248,7 +248,7 @@ pub struct Model<'a> {
 const STEP_CAP: u64 = 20_000;
 /// early-stop reason of a run that was killed at a crash point (the crash checks follow)
 pub const KILLED: &str = "run was killed at a crash point";
-const MAX_DEPTH: usize = 260;
+const MAX_DEPTH: usize = 1300;
 
 impl<'a> Model<'a> {
     pub fn new(
